@@ -804,7 +804,10 @@ class Models:
         t = z(v, "int")
         if not c.branch(z3.And(t >= 0, t < 256 ** nb)):
             raise py_exc(struct.error, "argument out of range")
-        parts = [smt.unit((t / (256 ** (nb - 1 - i))) % 256) for i in range(nb)]
+        qs = [t]
+        for _ in range(nb - 1):
+            qs.append(qs[-1] / 256)
+        parts = [smt.unit(qs[nb - 1 - i] % 256) for i in range(nb)]
         return mk("bytes", smt.cat_all(parts))
 
     def b_unpack(self, c, a, k, n):
